@@ -258,7 +258,7 @@ Proof.
   assert (Hcs : In c (c :: rest)) by (left; reflexivity).
   destruct (I_marks _ _ _ _ _ I c Hcs) as [Hfor _].
   unfold use. rewrite (sget_valid st c Hc). cbn [rbind].
-  rewrite (find_declared_nofor st (sc_of st c) x false Hfor).
+  rewrite (find_declared_noskip st (sc_of st c) x).
   unfold a_use, abs at 1. cbn [astack]. cbn [map]. rewrite a_find_decl_frame.
   destruct (find (fun v => vname (vget st v) =? x) (rev (sdeclared (sc_of st c)))) as [v|] eqn:Ed.
   - (* declared in the current scope *)
